@@ -6,6 +6,7 @@ import (
 	"sort"
 	"strings"
 	"testing"
+	"time"
 
 	"github.com/openziti/storage/ast"
 	"github.com/openziti/storage/boltz"
@@ -462,6 +463,7 @@ func TestC20(t *testing.T) {
 		Assumptions: []string{"dotted linked symbols (boss.sa) are not generated: the property defines publicity only for plain symbols and map elements",
 			"sub-queries range over a link set pointing back at the same store, so that 'public for the store' is unambiguous inside the sub-query"},
 		Gen: genC20, Run: runC20,
+		CaseTimeout: 5 * time.Minute,
 		QuickChecks: 20000, ThoroughFactor: 20,
 		ExhaustiveQuick: exhaustiveC20,
 		Exhaustive:      exhaustiveC20,
